@@ -16,7 +16,7 @@ from vlib.findings import Known
 PROPERTY = "C12"
 RULE = (
     "Hypothesis-generated Sphinx projects: 3-8 Markdown documents in a directory tree of depth <= 3 (marker titles, "
-    "2-4 headings each incl. duplicate titles, an explicit '(label)=' before a heading), 1-3 non-document files, an "
+    "2-4 headings each incl. titles repeated up to three times, base names that recur in several directories, an explicit '(label)=' before a heading), 1-3 non-document files, an "
     "index with a toctree; in every document a drawn set of links (each in its own one-line paragraph) to other "
     "documents in every spelling - relative path with extension, './' and '../' forms, leading '/' (source-root "
     "relative), without extension, '<project:...>' and '[t](project:...)', 'doc.md#heading-anchor' (incl. the "
@@ -67,9 +67,15 @@ def project_st(draw):
     for i in range(n):
         d = draw(st.sampled_from(DIRS))
         heads = [f"Section one D{i}", draw(st.sampled_from([f"Other D{i}", "Common heading", f"Section one D{i}"])),
-                 draw(st.sampled_from(["Common heading", f"Third D{i}"]))]
-        heads = heads[:draw(st.integers(2, 3))]
-        docs.append({"name": posixpath.join(d, f"doc{i}") if d else f"doc{i}", "title": f"Title D{i}", "heads": heads,
+                 draw(st.sampled_from(["Common heading", f"Third D{i}", f"Section one D{i}"])),
+                 draw(st.sampled_from(["Common heading", f"Section one D{i}"]))]
+        heads = heads[:draw(st.integers(2, 4))]
+        # base names may repeat across directories ('a/intro' next to 'intro'): extension-less links are relative to the page
+        base = draw(st.sampled_from([f"doc{i}", f"doc{i}", "intro", "guide"]))
+        name = posixpath.join(d, base) if d else base
+        if any(x["name"] == name for x in docs):
+            name = posixpath.join(d, f"doc{i}") if d else f"doc{i}"
+        docs.append({"name": name, "title": f"Title D{i}", "heads": heads,
                      "label": f"lab-d{i}", "label_head": draw(st.integers(0, len(heads) - 1))})
     files = []
     for j in range(draw(st.integers(1, 3))):
@@ -82,7 +88,7 @@ def project_st(draw):
                                      "missing_doc", "missing_anchor", "missing_label", "noext"]))
         tgt = draw(st.integers(0, n - 1))
         lk = {"src": src, "kind": kind, "tgt": tgt, "text": draw(st.sampled_from(TEXT_FORMS + ["empty", "empty"])),
-              "style": draw(st.sampled_from(["rel", "rel", "dot", "abs"])), "head": draw(st.integers(0, 2)),
+              "style": draw(st.sampled_from(["rel", "rel", "dot", "abs"])), "head": draw(st.integers(0, 3)),
               "file": draw(st.integers(0, len(files) - 1))}
         links.append(lk)
     return {"docs": docs, "files": files, "links": links}
@@ -312,10 +318,12 @@ def sub_projects(acc, shard, nshards, tier, seed):
 
 
 def sub_each(acc, shard, nshards, tier, seed):
-    """A fixed 5-document tree (root, a/, a/b/c/, d/e/): every link kind x path style x text form from every source
+    """A fixed 7-document tree (root, a/, a/b/c/, d/e/; two base names occur in two directories, one title three times): every link kind x path style x text form from every source
     document to a target in another directory (exhaustive over the spelling table)."""
-    docs = [{"name": "doc0", "title": "Title D0", "heads": ["Section one D0", "Common heading", "Common heading"], "label": "lab-d0", "label_head": 1},
-            {"name": "a/doc1", "title": "Title D1", "heads": ["Section one D1", "Section one D1"], "label": "lab-d1", "label_head": 1},
+    docs = [{"name": "doc0", "title": "Title D0", "heads": ["Section one D0", "Common heading", "Common heading", "Common heading"], "label": "lab-d0", "label_head": 1},
+            {"name": "a/doc1", "title": "Title D1", "heads": ["Section one D1", "Section one D1", "Section one D1"], "label": "lab-d1", "label_head": 1},
+            {"name": "a/doc0", "title": "Title A0", "heads": ["Section one A0", "Other A0"], "label": "lab-a0", "label_head": 0},
+            {"name": "d/e/doc1", "title": "Title E1", "heads": ["Section one E1", "Other E1"], "label": "lab-e1", "label_head": 1},
             {"name": "a/b/c/doc2", "title": "Title D2", "heads": ["Section one D2", "Other D2", "Common heading"], "label": "lab-d2", "label_head": 0},
             {"name": "d/e/doc3", "title": "Title D3", "heads": ["Common heading", "Third D3"], "label": "lab-d3", "label_head": 0},
             {"name": "a/doc4", "title": "Title D4", "heads": ["Section one D4", "Other D4"], "label": "lab-d4", "label_head": 1}]
@@ -336,7 +344,7 @@ def sub_each(acc, shard, nshards, tier, seed):
                             continue
                         if (tgt + len(links)) % 2 and tier == "quick":
                             continue
-                        links.append({"src": src, "kind": kind, "tgt": tgt, "text": text, "style": style, "head": (tgt + len(links)) % 3,
+                        links.append({"src": src, "kind": kind, "tgt": tgt, "text": text, "style": style, "head": (tgt + len(links)) % 4,
                                       "file": len(links) % len(files)})
             for v in check_case(acc, {"docs": docs, "files": files, "links": links}):
                 if kn.matches(v):
